@@ -27,6 +27,25 @@ func genCaseC08(t *rapid.T) *c08Case {
 	base.LateRegister = rapid.IntRange(0, 3).Draw(t, "lateRegister") == 0
 	base.ViaAPI = rapid.IntRange(0, 3).Draw(t, "schemaViaGoAPI") == 0
 	base.KeepParsed = base.LateRegister && rapid.Bool().Draw(t, "keepParsed")
+	if rapid.IntRange(0, 2).Draw(t, "lateJoin") == 0 {
+		// some memberships arrive by extension, after the root has answered a request
+		for _, td := range base.Schema.Types {
+			switch td.Kind {
+			case hx.KObject:
+				for _, in := range td.Interfaces {
+					if rapid.Bool().Draw(t, "late"+td.Name+in) {
+						base.LateJoin = append(base.LateJoin, td.Name+" implements "+in)
+					}
+				}
+			case hx.KUnion:
+				for _, m := range td.Members[1:] {
+					if rapid.Bool().Draw(t, "late"+td.Name+m) {
+						base.LateJoin = append(base.LateJoin, td.Name+" = "+m)
+					}
+				}
+			}
+		}
+	}
 	cc := &c08Case{Base: base, Bind: bind}
 	cc.Configs = append(cc.Configs, uniform(base, "X", false, "reflection", false))
 	var tnames []string
@@ -83,6 +102,7 @@ func applyConfigC08(base *Case, cf uconfig) *Case {
 func TestC08(t *testing.T) {
 	run := hx.NewRun("C08")
 	defer run.Flush()
+	defer func() { run.Extra("worlds_with_memberships_added_after_first_use", LateJoinedWorlds) }()
 	classes := func(c *Case, exp *hx.Expect, bind map[string]UBinding) (bool, []string) {
 		cl := []string{"config=" + c.Note, fmt.Sprintf("registered-after-first-use=%v", c.LateRegister)}
 		if c.ViaAPI {
@@ -90,6 +110,9 @@ func TestC08(t *testing.T) {
 		}
 		if c.KeepParsed {
 			cl = append(cl, "parsed-request-kept-across-the-registrations")
+		}
+		if len(c.LateJoin) > 0 {
+			cl = append(cl, "memberships-by-extension-after-first-use(requested)")
 		}
 		for tn, b := range bind {
 			fam := "X"
